@@ -120,6 +120,9 @@ def k40(args):
         elif t == 11:
             model.add_knowledge(objs[op[1]], world=world_of(op[2]))
             res.append([dump(objs)])
+        elif t == 14:
+            from lnn import Loss
+            res.append([fr(model.loss_fn([Loss.CONTRADICTION])[0])])
         elif t == 12:
             g = op[2]
             b = objs[op[1]].get_data(gkey(g) if len(g) == 1 else tuple(cname(c) for c in g)).tolist()[0]
